@@ -468,18 +468,50 @@ func runGossip(s *sim.Sim, o gopts) {
 		nd := nodes[s.Choose(len(nodes), "forget-where")]
 		wr.removed = true // the instance is gone: it never writes again
 		s.Fault("operator-forget")
+		// the same update may also register entries nobody has seen before (an operator replacing an instance):
+		// the removal must leave its tombstone whatever else the update carries
+		replacements := 0
+		if s.Chance(0.4, "forget-and-register") {
+			replacements = s.Range(1, 3, "replacements")
+		}
+		inc := nd.incarnation
 		s.Go("forget-"+wr.id, func() {
+			declined := false
 			err := nd.ringCl.CAS(ctx, ringKey, func(in interface{}) (interface{}, bool, error) {
 				d := ring.GetOrCreateRingDesc(in)
+				declined = false
 				if _, ok := d.Ingesters[wr.id]; !ok {
+					declined = true
 					return nil, false, nil
 				}
 				delete(d.Ingesters, wr.id)
+				now := time.Now().Unix()
+				for k := 0; k < replacements; k++ {
+					id := fmt.Sprintf("r%d-%s", k, wr.id)
+					d.Ingesters[id] = ring.InstanceDesc{Id: id, Addr: id + ":1", Zone: "a", State: ring.PENDING, Timestamp: now, RegisteredTimestamp: now}
+				}
 				return d, true, nil
 			})
-			if err == nil {
+			if err == nil && !declined {
 				s.Locked(func() { w.removedAt[wr.id] = s.Elapsed() })
 				s.Probe("entry-forgotten")
+				if replacements > 0 {
+					s.Probe("forgotten-and-others-registered-in-one-update")
+				}
+				if nd.alive && nd.incarnation == inc {
+					// the node that acknowledged the removal holds the tombstone and shows the entry to nobody
+					raw, _ := nd.raw(ringKey).(*ring.Desc)
+					if raw != nil {
+						if e, ok := raw.Ingesters[wr.id]; !ok || e.State != ring.LEFT {
+							s.Fail("removal-left-no-tombstone", "", "node %s acknowledged the removal of %s (same update registered %d new entries); it now stores %s (present=%v)", nd.name, wr.id, replacements, canonInst(wr.id, e), ok)
+						}
+					}
+					if vis, _ := nd.visible(ringKey).(*ring.Desc); vis != nil {
+						if _, ok := vis.Ingesters[wr.id]; ok {
+							s.Fail("removed-entry-still-shown", "", "node %s acknowledged the removal of %s and still shows it to readers", nd.name, wr.id)
+						}
+					}
+				}
 			}
 		})
 	}
